@@ -378,4 +378,4 @@ def run(ctx, cfg=CFG):
 
 
 from .selftest import for_families as _ff  # noqa: E402
-selftest = _ff(['gate', 'slice'])
+selftest = _ff(['gate', 'slice', 'errflow'])
